@@ -26,3 +26,11 @@ def run(ctx):
     rep.trusted_base = R.TRUSTED
     rep.assumptions = R.ASSUMPTIONS_C05
     return R.run_common(ctx, "C05", rep, ["theories/Properties/C05.vo"])
+
+
+def replay(ctx, payload):
+    rep = Report(ctx)
+    rep.rule = "replay of one recorded failing input"
+    rep.trusted_base = R.TRUSTED
+    rep.assumptions = R.ASSUMPTIONS_C05
+    return R.replay_common(ctx, "C05", rep, payload, ["theories/Properties/C05.vo"])
